@@ -137,12 +137,12 @@ def check(run):
     # (the two variants are inserted in a fixed order while their names are symbolic, so "first in SORTED order" below is a statement
     # about every insertion order: a main variant picked by insertion order fails `variant_is_requested_or_first`)
     verify.verify(run, c.E, c.contracts["gen:flat:2:0"], only=("variants_lists_sorted_top_level", "tree_variants_option_sorted_like_general",
-                                                               "arch_platforms_mirror_tree", "variant_is_requested_or_first"), crosscheck=False)
-    verify.verify(run, c.E, c.contracts["gen:paths-pkg:2:0"], only=("variant_is_requested_or_first", "packagedir_repository_of_main_variant"),
+                                                               "arch_platforms_mirror_tree", "variant_is_requested_or_first", "keeps_no_state_between_calls"), crosscheck=False)
+    verify.verify(run, c.E, c.contracts["gen:paths-pkg:2:0"], only=("variant_is_requested_or_first", "packagedir_repository_of_main_variant", "keeps_no_state_between_calls"),
                   crosscheck=False)
     # canon.repeat: writers leave the object's content unchanged (so the n-th dump equals the first)
     for k in ("ser:composeinfo.Compose", "ser:composeinfo.Release", "ser:images.Image", "ser:treeinfo.Release", "ser:treeinfo.Media"):
-        verify.verify(run, c.E, c.contracts[k], only=("object_unchanged",), crosscheck=False)
+        verify.verify(run, c.E, c.contracts[k], only=("object_unchanged", "keeps_no_state_between_calls"), crosscheck=False)
     # normalisations are applied by the FIRST dump (a layered-product variant's release is written as layered whatever the caller left)
     verify.verify(run, c.E, c.contracts["rt:composeinfo.Variants:1"], only=("layered_product_release_written_as_layered",
                                                                            "only_nonempty_paths_of_own_arches_written"), crosscheck=False)
